@@ -7,6 +7,9 @@ import (
 	"encoding/json"
 	"fmt"
 	"os"
+	"runtime"
+	"sync"
+	"sync/atomic"
 	"testing"
 	"time"
 
@@ -35,20 +38,75 @@ type ctx struct{ ci gopacket.CaptureInfo }
 func (c *ctx) GetCaptureInfo() gopacket.CaptureInfo { return c.ci }
 
 type stream struct {
-	r        *runner
-	h        [2]*tcpm.Half // indexed by model direction; nil for late-traffic streams
-	firstDir int
-	id       int
-	done     int
-	answer   bool
-	deliv    int
+	r          *runner
+	h          [2]*tcpm.Half // indexed by model direction; nil for late-traffic streams
+	conn, inc  int
+	bound      bool
+	gone       bool
+	inCallback atomic.Bool
+	firstDir   int
+	id         int
+	done       int
+	answer     bool
+	deliv      int
 }
 
 func (s *stream) Accept(tcp *layers.TCP, ci gopacket.CaptureInfo, dir reassembly.TCPFlowDirection, nextSeq reassembly.Sequence, start *bool, ac reassembly.AssemblerContext) bool {
 	return true
 }
 
+// bind attaches the stream to its model halves at its first callback. Under concurrency two streams may be created
+// for one 4-tuple (both first packets race); only the one the pool keeps may ever receive callbacks.
+func (s *stream) bind() {
+	if s.bound {
+		return
+	}
+	s.bound = true
+	k := [2]int{s.conn, s.inc}
+	if o := s.r.owner[k]; o != nil && o != s {
+		if o.done == 0 {
+			s.r.failf("two-entries", "two streams of connection %d (incarnation %d) both receive callbacks: the directions are not attached to a single connection entry", s.conn, s.inc)
+		}
+		return // traffic after the end of the connection: a fresh stream, not judged
+	}
+	s.r.owner[k] = s
+	h0, h1 := s.r.m.Half(s.conn, 0, s.inc), s.r.m.Half(s.conn, 1, s.inc)
+	s.h = [2]*tcpm.Half{h0, h1}
+	s.r.m.Bind(h0)
+	s.r.m.Bind(h1)
+}
+
+func (s *stream) enter(what string) {
+	if !s.inCallback.CompareAndSwap(false, true) {
+		s.r.lock()
+		s.r.failf("overlap", "callbacks of stream %d overlap (%s while another callback of the same stream is running)", s.id, what)
+		s.r.unlock()
+	}
+	if s.r.yield != nil {
+		s.r.yield("callback:" + what)
+	} else if s.r.locked != nil {
+		runtime.Gosched() // widen the window in which an unserialised second callback would be seen
+	}
+}
+
+func (r *runner) lock() {
+	if r.locked != nil {
+		r.locked.Lock()
+	}
+}
+
+func (r *runner) unlock() {
+	if r.locked != nil {
+		r.locked.Unlock()
+	}
+}
+
 func (s *stream) ReassembledSG(sg reassembly.ScatterGather, ac reassembly.AssemblerContext) {
+	s.enter("ReassembledSG")
+	defer s.inCallback.Store(false)
+	s.r.lock()
+	defer s.r.unlock()
+	s.bind()
 	if s.done > 0 {
 		s.r.failf("data-after-completion", "stream %d received data after ReassemblyComplete", s.id)
 	}
@@ -76,10 +134,18 @@ func (s *stream) ReassembledSG(sg reassembly.ScatterGather, ac reassembly.Assemb
 		s.r.lateDeliveries++
 		return
 	}
+	if s.r.noModel || s.r.unordered != nil && s.r.unordered(s.conn, md) {
+		return // no delivery order is promised for this direction
+	}
 	s.r.m.Deliver(s.h[md], tcpm.Delivery{Skip: skip, Saved: data[:saved], New: data[saved:], Start: start, End: end, KeepFrom: keep})
 }
 
 func (s *stream) ReassemblyComplete(ac reassembly.AssemblerContext) bool {
+	s.enter("ReassemblyComplete")
+	defer s.inCallback.Store(false)
+	s.r.lock()
+	defer s.r.unlock()
+	s.bind()
 	s.done++
 	if s.done > 1 {
 		s.r.failf("completed-twice", "stream %d completed %d times", s.id, s.done)
@@ -88,6 +154,9 @@ func (s *stream) ReassemblyComplete(ac reassembly.AssemblerContext) bool {
 		if h != nil {
 			s.r.m.CompleteConn(h, s.answer)
 		}
+	}
+	if s.answer {
+		s.gone = true
 	}
 	return s.answer
 }
@@ -99,6 +168,12 @@ type runner struct {
 	fail                    *vh.Failure
 	op                      int
 	batches, lateDeliveries int
+	owner                   map[[2]int]*stream
+	created                 map[[2]int]bool          // a stream was requested from the factory for this connection incarnation
+	yield                   func(site string)        // set by the controlled-schedule test
+	locked                  *sync.Mutex              // race-stress mode: serialises the harness' own bookkeeping
+	unordered               func(conn, dir int) bool // C12: directions whose packets are spread over assemblers
+	noModel                 bool                     // race-stress mode with a flusher: arrival order is unknowable, deliveries are not judged
 }
 
 func (r *runner) failf(key, format string, a ...any) {
@@ -115,16 +190,16 @@ func (r *runner) New(netFlow, tcpFlow gopacket.Flow, tcp *layers.TCP, ac reassem
 		dir, cp = 1, dp
 	}
 	conn, inc := (cp-10000)/64, (cp-10000)%64
-	s := &stream{r: r, id: len(r.streams), firstDir: dir, answer: true}
+	if r.yield != nil {
+		r.yield("factory.New")
+	}
+	r.lock()
+	defer r.unlock()
+	s := &stream{r: r, id: len(r.streams), firstDir: dir, answer: true, conn: conn, inc: inc}
 	if len(r.c.Complete) > 0 {
 		s.answer = r.c.Complete[s.id%len(r.c.Complete)]
 	}
-	h0, h1 := r.m.Half(conn, 0, inc), r.m.Half(conn, 1, inc)
-	if !h0.Bound() && !h1.Bound() {
-		s.h = [2]*tcpm.Half{h0, h1}
-		r.m.Bind(h0)
-		r.m.Bind(h1)
-	}
+	r.created[[2]int{conn, inc}] = true
 	r.streams = append(r.streams, s)
 	return s
 }
@@ -167,7 +242,7 @@ func run(c *tcpm.Case, lifecycle bool) (f *vh.Failure, m *tcpm.Model, info map[s
 }
 
 func run1(c *tcpm.Case, lifecycle bool) (f *vh.Failure, m *tcpm.Model, info map[string]bool) {
-	r := &runner{c: c, m: tcpm.NewModel(c, "reassembly")}
+	r := &runner{c: c, m: tcpm.NewModel(c, "reassembly"), owner: map[[2]int]*stream{}, created: map[[2]int]bool{}}
 	info = map[string]bool{}
 	pv, stack := vh.Recover(func() {
 		pool := reassembly.NewStreamPool(r)
@@ -176,8 +251,12 @@ func run1(c *tcpm.Case, lifecycle bool) (f *vh.Failure, m *tcpm.Model, info map[
 		a.MaxBufferedPagesTotal = c.MaxTotal
 		// syncClosed copies half closures the assembler performed without an End delivery (idle close) into the model
 		syncClosed := func() {
+			for k := range r.created {
+				r.m.Half(k[0], 0, k[1])
+				r.m.Half(k[0], 1, k[1])
+			}
 			for _, h := range r.m.Halves() {
-				if !h.Bound() || h.Closed || h.Gone {
+				if !r.created[[2]int{h.Conn, h.Inc}] || h.Closed || h.Gone {
 					continue
 				}
 				nf, sp, dp := flows(&tcpm.Seg{Conn: h.Conn, Dir: h.Dir, Inc: h.Inc})
@@ -242,6 +321,9 @@ func run1(c *tcpm.Case, lifecycle bool) (f *vh.Failure, m *tcpm.Model, info map[
 					}
 					refused := 0
 					for _, s := range r.streams {
+						if !s.bound {
+							continue // created by the factory but never kept by the pool
+						}
 						if s.done != 1 {
 							r.failf("reassembly:2:completion-count", "stream %d (of %d) completed %d times after FlushAll", s.id, len(r.streams), s.done)
 						}
@@ -368,6 +450,11 @@ func TestRegress(t *testing.T) {
 			f, _, _ := run(&c, true)
 			return true, f
 		}
+		if regressExtra != nil {
+			return regressExtra(rf)
+		}
 		return false, nil
 	})
 }
+
+var regressExtra func(rf *vh.ReplayFile) (bool, *vh.Failure)
